@@ -62,6 +62,16 @@ def _mentions(term, var):
     return var.e.get_id() in used
 
 
+class LoopTemp:
+    """an array temporary of a summarised loop that may not have run: not a value; every use is `unsupported`"""
+
+    def __init__(self, name, line):
+        self.name, self.line = name, line
+
+    def __getattr__(self, a):
+        raise Unsupported("use of %s after the loop at line %d, which may not have executed" % (self.__dict__.get("name"), self.__dict__.get("line", 0)))
+
+
 def _subst(v, var, repl):
     from .z3dom import subst
     if isinstance(v, (Arr, Arr2)):
@@ -179,8 +189,23 @@ def summarise_for(interp, st, it, frame):
         if isinstance(out, (Arr, Arr2)):
             if nm in before and before[nm] is out:
                 continue
-            if _arr_mentions(out, k) or any(_arr_mentions(out, s) for s in _flat(carried_in.values())):
+            if any(_arr_mentions(out, s) for s in _flat(carried_in.values())):
                 raise Unsupported("array re-bound inside a summarised loop (line %d)" % st.lineno)
+            if _arr_mentions(out, k):
+                if nm in carried_in:
+                    raise Unsupported("array re-bound inside a summarised loop (line %d)" % st.lineno)
+                # an iteration-local ARRAY temporary (assigned before it is read in every iteration, e.g. `past = X[k-P:k][::-1]`):
+                # after the loop it holds the last iteration's value -- if the loop is known to run; otherwise any later use is
+                # outside what is modelled
+                if isinstance(out, Arr) and V.known(ran) is True:
+                    from .z3dom import subst
+                    n2 = out.n if V.is_conc(out.n) else subst(out.n, [(k, last)])
+                    snap = out.snap()
+                    r = Arr.build(n2, lambda i, snap=snap: subst(snap(i), [(k, last)]), out.dtype)
+                    r.is_list = out.is_list
+                    frame.locals[nm] = r
+                else:
+                    frame.locals[nm] = LoopTemp(nm, st.lineno)
             continue
         if out is None or not V.is_num(out):
             continue
